@@ -197,6 +197,26 @@ the fork point, then apply the other branch (`up`, fork side first) -/
 def rewindAndApplyFork (S : TxHS) (down : List (Blk × Nat)) (up : List Blk) : Except Err TxHS :=
   applyBlocks (rewindBlocks S down) up
 
+/-- a block together with the output size of the header before it, along a branch that starts
+at output size `n` (the `prev.output_mmr_size` that `rewind_single_block` reads; for accepted
+blocks the header's claimed size is the real one: `validate_mmr_sizes`) -/
+def withPrevSizes (n : Nat) : List Blk → List (Blk × Nat)
+  | [] => []
+  | b :: bs => (b, n) :: withPrevSizes (n + b.outs.length) bs
+
+/-- strip the common prefix of two root-first paths: (output size at the fork point, rest of the
+first path, rest of the second path) -/
+def splitCommon : List Blk → List Blk → Nat → Nat × List Blk × List Blk
+  | a :: as, b :: bs, n =>
+    if a.id == b.id then splitCommon as bs (n + a.outs.length) else (n, a :: as, b :: bs)
+  | as, bs, n => (n, as, bs)
+
+/-- move the txhashset from the tip of `oldPath` to the tip of `newPath` (both root-first paths
+from the genesis): rewind to the last common block, apply the rest of the new path -/
+def switchTo (S : TxHS) (oldPath newPath : List Blk) : Except Err TxHS :=
+  let (n, d, u) := splitCommon oldPath newPath 0
+  rewindAndApplyFork S (withPrevSizes n d).reverse u
+
 /-- the txhashset after the genesis block -/
 def implGenesis (g : Blk) : Except Err TxHS := applyBlockImpl {} g
 
